@@ -310,6 +310,38 @@ theorem enable_idempotent {p : Proj} (g : Good p) (ok : ProfilesOK p) (names : L
   simp only [Bool.false_eq_true, if_false]
   rw [eq, resolveEnabled_idem]
 
+/-! ## histories compose; the last `WithProfiles` decides; the closure is monotone -/
+
+/-- histories compose: running `a ++ b` is running `b` on the result of `a` -/
+theorem run_append (p : Proj) (a b : List Op) : run p (a ++ b) = run (run p a) b := by
+  induction a generalizing p with
+  | nil => rfl
+  | cons o os ih =>
+    simp only [List.cons_append, run_cons]
+    cases applyOp p o <;> exact ih _
+
+/-- **any history that ends with `WithProfiles P` leaves the partition `WithProfiles P` alone would**: the last profile
+selection decides which services are enabled, whatever was enabled, disabled or selected before -/
+theorem history_ending_with_profiles {p : Proj} (g : Good p) (ops : List Op) (P : List String) (k : String) :
+    k ∈ keys (run p (ops ++ [.profiles P])).services ↔ k ∈ keys (withProfiles p P).services := by
+  rw [run_append]
+  exact profiles_absorbs_history g ops P k
+
+/-- the closure is monotone in the requested names -/
+theorem reach_mono {svcs : AL Svc} {pol : Policy} {a b : List String} (sub : ∀ x ∈ a, x ∈ b) {x : String}
+    (h : Reach svcs pol a x) : Reach svcs pol b x := by
+  induction h with
+  | root hr hk => exact .root (sub _ hr) hk
+  | step _ e ih => exact .step ih e
+
+/-- **selecting more names keeps more services**: if both selections succeed, the enabled set of the smaller request is
+contained in that of the larger one -/
+theorem select_monotone {p : Proj} (g : Good p) {a b : List String} (ha : a ≠ []) (hb : b ≠ []) (sub : ∀ x ∈ a, x ∈ b)
+    {pol : Policy} {qa qb : Proj} (ea : withSelectedServices p a pol = .ok qa) (eb : withSelectedServices p b pol = .ok qb)
+    (x : String) (hx : x ∈ keys qa.services) : x ∈ keys qb.services := by
+  rw [selected_eq_closure g.1 g.2.2 hb eb]
+  exact reach_mono sub ((selected_eq_closure g.1 g.2.2 ha ea x).1 hx)
+
 /-! ## non-vacuity -/
 
 example : Good fastPathProj := ⟨by decide, by decide, by decide⟩
